@@ -202,7 +202,7 @@ func goStates() map[uint64]string {
 	return m
 }
 
-var cur *sched // the schedule being executed (schedules run one at a time)
+var curSched atomic.Pointer[sched] // the schedule being executed (schedules run one at a time)
 
 func (a *actor) park(point string) answer {
 	a.point.Store(point)
@@ -212,7 +212,7 @@ func (a *actor) park(point string) answer {
 }
 
 func yieldHook(point string) {
-	s := cur
+	s := curSched.Load()
 	if s == nil {
 		return
 	}
@@ -263,7 +263,7 @@ func (s *sched) gate(a *actor, name string) ([]byte, error) {
 type gatedDS struct{}
 
 func (gatedDS) Load(ctx context.Context, headers http.Header, input []byte) ([]byte, error) {
-	s := cur
+	s := curSched.Load()
 	id, _ := ctx.Value(actorKey{}).(int)
 	a := s.actors[id]
 	if g := curGoid(); g != a.goid.Load() {
@@ -666,7 +666,7 @@ func newSched(mode string, reqs []reqSpec) *sched {
 // runSchedule executes one schedule; choose picks among the applicable commands (nil options = stop).
 func runSchedule(mode string, reqs []reqSpec, o genOpts, choose func(opts []cmd) (cmd, bool)) string {
 	s := newSched(mode, reqs)
-	cur = s
+	curSched.Store(s)
 	defer func() {
 		// never leave goroutines behind: cancel everything, release whoever is parked
 		for _, a := range s.actors {
@@ -694,7 +694,7 @@ func runSchedule(mode string, reqs []reqSpec, o genOpts, choose func(opts []cmd)
 			}
 			time.Sleep(200 * time.Microsecond)
 		}
-		cur = nil
+		curSched.Store(nil)
 	}()
 	st := s.settle()
 	for i, a := range s.actors {
@@ -760,8 +760,8 @@ func calibrate(mode string) []byte {
 	defer cancel()
 	a := &actor{id: 0, req: reqSpec{op: "query", dedup: false}, resume: make(chan answer, 1), ctx: &actorCtx{cctx, 0}, cancel: cancel}
 	s.actors = []*actor{a}
-	cur = s
-	defer func() { cur = nil }()
+	curSched.Store(s)
+	defer curSched.Store(nil)
 	a.resume <- answer{"errup"}
 	var out bytes.Buffer
 	if _, err := r.ArenaResolveGraphQLResponse(s.resolveCtx(a), s.response(a), &out); err != nil {
